@@ -157,6 +157,10 @@ func Tier() int {
 	}
 	return 0
 }
+
+// InitValueBool: natively the replay binary links the application exactly as
+// cmd/fundraisingd does (env -> app), so the value observed at process start is the answer.
+func InitValueBool(binaryPkg, global string, linked bool) bool { return linked }
 func Param(name string, def int) int {
 	if v, ok := S.Sc.Params[name]; ok {
 		return v
